@@ -848,7 +848,67 @@ func c06ReplyKind(r *Run) {
 			}
 		})
 		if ta == nil {
-			r.Undecided(rule, name+": reply assertion", fn.Pos(), "no assertion of the WriteMessage result to *DataMessage found")
+			// the kind test may live in a shared helper the reply is handed to: then the helper's own
+			// nil-error returns must have found the assertion true or the reply nil
+			var helper *ssa.Function
+			var hparam *ssa.Parameter
+			eachInstr(fn, func(in ssa.Instruction) {
+				c, ok := in.(*ssa.Call)
+				if !ok || calleeOf(c).Static == nil || fnPkgPath(calleeOf(c).Static) != fnPkgPath(fn) {
+					return
+				}
+				for i, a := range c.Call.Args {
+					if ex, isEx := a.(*ssa.Extract); isEx && isCallToMethod(ex.Tuple, "WriteMessage") && i < len(calleeOf(c).Static.Params) {
+						helper, hparam = calleeOf(c).Static, calleeOf(c).Static.Params[i]
+					}
+				}
+			})
+			if helper == nil {
+				r.Undecided(rule, name+": reply assertion", fn.Pos(), "no assertion of the WriteMessage result to *DataMessage found")
+				continue
+			}
+			r.Analysed(w.FnName(helper))
+			var hta *ssa.TypeAssert
+			eachInstr(helper, func(in ssa.Instruction) {
+				if x, ok := in.(*ssa.TypeAssert); ok && x.X == ssa.Value(hparam) {
+					if p, isP := x.AssertedType.(*types.Pointer); isP && types.Identical(p.Elem(), dm) {
+						hta = x
+					}
+				}
+			})
+			hpaths, okp := enumPaths(helper, 2000)
+			if hta == nil || !okp {
+				r.Undecided(rule, name+": reply assertion (in "+helper.Name()+")", helper.Pos(), "the helper does not assert its argument to *DataMessage")
+				continue
+			}
+			okAll := true
+			var worst *Path
+			for _, p := range hpaths {
+				rets := p.Rets()
+				if len(rets) == 0 {
+					continue
+				}
+				if c, ok := rets[len(rets)-1].(*ssa.Const); !ok || !c.IsNil() {
+					continue
+				}
+				decided := false
+				for _, c := range p.Conds {
+					if ex, ok := c.Cond.(*ssa.Extract); ok && ex.Tuple == ssa.Value(hta) && ex.Index == 1 && c.Val {
+						decided = true
+					}
+					if x, eq, isCmp := isNilCmp(c.Cond); isCmp && x == ssa.Value(hparam) && eq == c.Val {
+						decided = true
+					}
+				}
+				if !decided {
+					okAll, worst = false, p
+				}
+			}
+			if okAll {
+				r.OK(rule, "hsms."+name+": reply kind decided in "+helper.Name(), helper.Pos(), "every nil-error return of the helper decided the reply's kind")
+			} else {
+				r.Fail(rule, "hsms."+name+": reply kind decided in "+helper.Name(), helper.Pos(), "the helper returns a nil error without having found the reply to be a *DataMessage or nil: a control response routed under the primary's system bytes yields (nil, nil) [%s]", worst.String())
+			}
 			continue
 		}
 		replyVal := ta.X
